@@ -68,7 +68,7 @@ type Tape struct {
 	Seed   uint64
 	r      *rng
 	Rec    []Entry
-	replay []Entry // non-nil: replay mode
+	replay []Entry          // non-nil: replay mode
 	rq     map[string][]int // replay values per label, in recorded order
 	rpos   int
 	Forced map[string]int // label -> forced value (enumeration dimensions)
